@@ -293,18 +293,17 @@ Lemma help_target_walks a toks b p :
   (match toks with t :: _ => str_eqb t S_help = false | [] => True end) ->
   walk (named_of (ap_cmds a)) None (leading toks) = Ok (Some (b, p)) ->
   help_target a toks =
-    (do d <- pick_default (defaults_of (b_subs b)) toks None;
+    (do d <- help_pick_default (defaults_of (b_subs b)) toks None;
      match d with
-     | Some (dc, _) => do _ <- parse (b_fmt dc) true toks; Ok (p ++ [b_name dc])
-     | None => do _ <- parse (b_fmt b) true toks; Ok p
+     | Some (dc, _) => do _ <- help_lenient (b_fmt dc) toks; Ok (p ++ [b_name dc])
+     | None => do _ <- help_lenient (b_fmt b) toks; Ok p
      end).
 Proof.
   intros Hh Hw. unfold help_target.
   assert ((match toks with t :: r => if str_eqb t S_help then r else toks | [] => [] end) = toks) as ->.
   { destruct toks as [|t r]; [reflexivity|now rewrite Hh]. }
   rewrite Hw. cbn [bind].
-  destruct (pick_default (defaults_of (b_subs b)) toks None) as [[[dc r]|]|k]; cbn [bind]; try reflexivity;
-    destruct (parse _ true toks); reflexivity.
+  destruct (help_pick_default (defaults_of (b_subs b)) toks None) as [[[dc r]|]|k]; cbn [bind]; reflexivity.
 Qed.
 
 (* a line = its leading plain tokens followed by a rest that starts with a stopper (an option-like token, "--", the
@@ -397,49 +396,44 @@ Section Anywhere.
 
     Lemma help_anywhere_target :
       help_target a (path ++ rest) =
-        (do d <- pick_default (defaults_of (b_subs b)) (path ++ rest) None;
+        (do d <- help_pick_default (defaults_of (b_subs b)) (path ++ rest) None;
          match d with
-         | Some (dc, _) => do _ <- parse (b_fmt dc) true (path ++ rest); Ok (p ++ [b_name dc])
-         | None => do _ <- parse (b_fmt b) true (path ++ rest); Ok p
+         | Some (dc, _) => do _ <- help_lenient (b_fmt dc) (path ++ rest); Ok (p ++ [b_name dc])
+         | None => do _ <- help_lenient (b_fmt b) (path ++ rest); Ok p
          end).
     Proof. apply help_target_walks; [exact first_not_help|]. now rewrite (leading_app_stopped _ _ Hplain Hstop). Qed.
 
     (* THAT command's page: b has no default sub-command *)
     Lemma help_anywhere_that_command : defaults_of (b_subs b) = [] ->
       sm_action (run_summary debug a (path ++ rest)) =
-        match parse (b_fmt b) true (path ++ rest) with Ok _ => AHelpCmd p | Err k => AHelpFail k end.
+        match help_lenient (b_fmt b) (path ++ rest) with Ok _ => AHelpCmd p | Err k => AHelpFail k end.
     Proof.
-      intros Hd. rewrite help_anywhere_page. unfold help_page. rewrite help_anywhere_target, Hd. cbn [pick_default bind].
-      destruct (parse (b_fmt b) true (path ++ rest)); reflexivity.
+      intros Hd. rewrite help_anywhere_page. unfold help_page. rewrite help_anywhere_target, Hd. cbn [help_pick_default bind].
+      destruct (help_lenient (b_fmt b) (path ++ rest)); reflexivity.
     Qed.
-    Lemma help_anywhere_that_command_ok y : defaults_of (b_subs b) = [] -> parse (b_fmt b) true (path ++ rest) = Ok y ->
+    Lemma help_anywhere_that_command_ok : defaults_of (b_subs b) = [] -> help_lenient (b_fmt b) (path ++ rest) = Ok tt ->
       sm_action (run_summary debug a (path ++ rest)) = AHelpCmd p /\
       prints_page (sm_action (run_summary debug a (path ++ rest))) = true.
     Proof. intros Hd Hp. rewrite (help_anywhere_that_command Hd), Hp. auto. Qed.
 
     (* with default sub-commands: the page of the first default sub-command that parses the line under its own
-       leniency (the line WITH the switch and everything else on it) *)
-    Lemma help_anywhere_default ds1 d ds2 y z : defaults_of (b_subs b) = ds1 ++ d :: ds2 ->
-      Forall (fun c => parse (b_fmt c) (b_lenient c) (path ++ rest) = Err CannotParse) ds1 ->
-      parse (b_fmt d) (b_lenient d) (path ++ rest) = Ok y -> parse (b_fmt d) true (path ++ rest) = Ok z ->
+       leniency (the line WITH the switch and everything else on it); the ones before it refuse the line or meet a
+       value that does not convert *)
+    Lemma help_anywhere_default ds1 d ds2 y : defaults_of (b_subs b) = ds1 ++ d :: ds2 ->
+      Forall (unfit (path ++ rest)) ds1 ->
+      parse (b_fmt d) (b_lenient d) (path ++ rest) = Ok y -> help_lenient (b_fmt d) (path ++ rest) = Ok tt ->
       sm_action (run_summary debug a (path ++ rest)) = AHelpCmd (p ++ [b_name d]).
     Proof.
       intros Hd H1 H2 H3. rewrite help_anywhere_page. unfold help_page. rewrite help_anywhere_target, Hd.
-      rewrite (pick_default_first_parsable ds1 d y ds2 _ H1 H2 None). cbn [bind]. now rewrite H3.
+      rewrite (help_pick_first_parsable ds1 d y ds2 _ H1 H2 None). cbn [bind]. now rewrite H3.
     Qed.
     (* ... none of them parses it: the page of the FIRST default sub-command *)
-    Lemma help_anywhere_default_none d ds z : defaults_of (b_subs b) = d :: ds ->
-      Forall (fun c => parse (b_fmt c) (b_lenient c) (path ++ rest) = Err CannotParse) (d :: ds) ->
-      parse (b_fmt d) true (path ++ rest) = Ok z ->
+    Lemma help_anywhere_default_none d ds : defaults_of (b_subs b) = d :: ds ->
+      Forall (unfit (path ++ rest)) (d :: ds) -> help_lenient (b_fmt d) (path ++ rest) = Ok tt ->
       sm_action (run_summary debug a (path ++ rest)) = AHelpCmd (p ++ [b_name d]).
     Proof.
       intros Hd H1 H3. rewrite help_anywhere_page. unfold help_page. rewrite help_anywhere_target, Hd.
-      assert (forall l first, Forall (fun c => parse (b_fmt c) (b_lenient c) (path ++ rest) = Err CannotParse) l ->
-                pick_default l (path ++ rest) (Some first) = Ok (Some (fst first, Err (snd first)))) as Hrest.
-      { induction l as [|c l IH]; intros [fb fk] Hl; cbn [pick_default fst snd]; [reflexivity|].
-        inversion Hl as [|? ? Hc Hl']; subst. rewrite Hc. apply (IH (fb, fk)). exact Hl'. }
-      inversion H1 as [|? ? Hc Hl]; subst. cbn [pick_default]. rewrite Hc, (Hrest ds (d, CannotParse) Hl). cbn [fst snd bind].
-      now rewrite H3.
+      destruct (help_pick_none_parsable (path ++ rest) (d :: ds) None H1) as [k ->]. cbn [bind]. now rewrite H3.
     Qed.
   End Page.
 End Anywhere.
